@@ -80,6 +80,10 @@ fn pair_run(ch: &Ch, scenario: u32) -> ExecResult {
         let (pa, pb) = if scenario == 4 { pipe::pair_bounded(24) } else { pipe::pair() };
         let drain = zksync_concurrency::sync::watch::channel(false).0;
         let drain = &drain;
+        let victim_open = zksync_concurrency::sync::watch::channel(false).0;
+        let victim_open = &victim_open;
+        let victim_done = zksync_concurrency::sync::watch::channel(false).0;
+        let victim_done = &victim_done;
         let clock = &clock;
         let c0 = nv::VQueue::new(&root, 1, limiter::Rate::INF);
         let a0 = nv::VQueue::new(&root, 1, limiter::Rate::INF);
@@ -145,6 +149,7 @@ fn pair_run(ch: &Ch, scenario: u32) -> ExecResult {
                 s.spawn(async move {
                     use zksync_concurrency::time;
                     let mut victim = c0.open(ctx).await?;
+                    victim_open.send_replace(true);
                     let mut blocker = c2.open(ctx).await?;
                     victim.write_all(ctx, &tag(0x10, 5)).await?;
                     let r = blocker.write_all(&ctx.with_timeout(time::Duration::seconds(10)), &tag(0x90, 200)).await;
@@ -160,7 +165,32 @@ fn pair_run(ch: &Ch, scenario: u32) -> ExecResult {
                     if !got.is_empty() {
                         fail(sh, format!("the victim sub-stream received {got:?} although its peer wrote nothing"));
                     }
+                    drop(rh);
+                    victim_done.send_replace(true);
                     { let mut g = sh.lock().unwrap(); g.done += 1; if r2.is_err() { g.open_max[3] = 1; } }
+                    anyhow::Ok(())
+                });
+                // an open() on the same capability (limit 1) while the victim holds the only sub-stream has to
+                // wait and is cancelled by its deadline; once the victim is closed, open() must succeed
+                // again (a cancelled open must not keep a sub-stream slot)
+                s.spawn(async move {
+                    use zksync_concurrency::{sync, time};
+                    sync::wait_for(ctx, &mut victim_open.subscribe(), |d| *d).await?;
+                    let r = c0.open(&ctx.with_timeout(time::Duration::seconds(5))).await;
+                    if let Ok(st) = r {
+                        fail(sh, "a second sub-stream of capability 0 was opened while the first one was open: the announced limit is 1".into());
+                        drop(st);
+                    }
+                    sync::wait_for(ctx, &mut victim_done.subscribe(), |d| *d).await?;
+                    let mut st = c0.open(ctx).await?;
+                    st.write_all(ctx, &tag(0x70, 3)).await?;
+                    st.flush(ctx).await?;
+                    let mut rh = st.close_write();
+                    let got = read_to_end_half(ctx, &mut rh).await?;
+                    if !got.is_empty() {
+                        fail(sh, format!("the sub-stream opened after a cancelled open() received {got:?} although its peer wrote nothing"));
+                    }
+                    { let mut g = sh.lock().unwrap(); g.done += 1; g.log.push("late-open".into()); }
                     anyhow::Ok(())
                 });
                 s.spawn(async move {
@@ -177,6 +207,13 @@ fn pair_run(ch: &Ch, scenario: u32) -> ExecResult {
                     if got != want {
                         fail(sh, format!("the peer of a sub-stream whose flush was cancelled under congestion and retried later read {got:?}; the successful writes were {want:?} (bytes accepted before the cancelled flush are lost / reordered)"));
                     }
+                    drop(victim);
+                    let mut st = a0.open(ctx).await?;
+                    let got = read_to_end_stream(ctx, &mut st).await?;
+                    if got != tag(0x70, 3) {
+                        fail(sh, format!("the sub-stream opened after a cancelled open() delivered {got:?}, expected the 3 bytes written on it"));
+                    }
+                    drop(st);
                     sh.lock().unwrap().done += 1;
                     anyhow::Ok(())
                 });
@@ -286,7 +323,7 @@ fn pair_run(ch: &Ch, scenario: u32) -> ExecResult {
     });
     let g = sh.lock().unwrap();
     let mut violation = g.violation.clone();
-    let want_done = if scenario == 2 { 6 } else { 2 };
+    let want_done = match scenario { 2 => 6, 4 => 3, _ => 2 };
     if violation.is_none() && (stuck || g.done != want_done) {
         violation = Some(format!("deadlock: no task is runnable but only {} of {want_done} client/server tasks completed (stuck={stuck})", g.done));
     }
@@ -544,7 +581,7 @@ pub fn run(args: &Args) -> Report {
         "evaluations": execs,
         "distinct_nontrivial": distinct.max(2),
         "samples": [
-            {"harness": "pair scenario 4", "case": "link bounded to 24 bytes in flight; the client buffers 5 bytes on sub-stream A, writes 200 bytes on sub-stream B that the peer does not read (write cancelled by its deadline), flushes A under a deadline (cancelled while the link is congested), then the peer drains B, the client flushes A again, writes 6 more bytes and closes: the peer must read the 5 + 6 bytes"},
+            {"harness": "pair scenario 4", "case": "link bounded to 24 bytes in flight; the client buffers 5 bytes on sub-stream A, writes 200 bytes on sub-stream B that the peer does not read (write cancelled by its deadline), flushes A under a deadline (cancelled while the link is congested), then the peer drains B, the client flushes A again, writes 6 more bytes and closes: the peer must read the 5 + 6 bytes; meanwhile a second open() on A's capability (limit 1) waits, is cancelled by its deadline, and after A is closed another open() must succeed and carry its own 3 bytes"},
             {"harness": "pair scenario 1", "case": "client writes 20 bytes on stream 1 of the single reusable stream, server reads 10 and drops it; stream 2 must deliver exactly its own 5 bytes"},
             {"harness": "flood", "case": "raw peer: handshake, OPEN, 40 DATA frames of 8 bytes; application holds the stream without reading"},
         ],
